@@ -239,7 +239,8 @@ MANIFEST_ENTRY = {
             "X(0) = I, X' = J X): C11_convergence_every_linear_generator_2d, C11_convergence_canonical_forms_2d, "
             "C11_convergence_similarity_invariant_2d, C11_canonical_exponentials_solve_ode, C11_convergence_diagonalisable_2d. Partial: "
             "convergence for 3-D generators coupling all three axes (block-diagonal ones -- arbitrary 2 x 2 block plus axis scaling -- are "
-            "proved: C11_convergence_block_generator_3d) and for translation combined with a non-diagonal linear part, and the second-order inverse consistency exp(v) o exp(-v) for smooth fields are explored numerically on "
+            "proved: C11_convergence_block_generator_3d) and for translation combined with a SINGULAR non-diagonal linear part (2-D generators [M | h] with det M <> 0 are proved: "
+            "translation -> M^-1 (exp M - I) h, C11_convergence_every_affine_generator_2d), and the second-order inverse consistency exp(v) o exp(-v) for smooth fields are explored numerically on "
             "the implementation only (not proved). The ExpFlow module is traced (arguments handed to expv on all four call paths), and so is the flag StationaryVelocityFieldTransform gives it at construction and after grid_() / grid(). Trusted: Coq kernel, vm_compute, the model of "
             "F.grid_sample (Model/Sampler.v, validated by the correspondence), symtorch, float rounding outside the model.",
 }
